@@ -209,9 +209,18 @@ def _summarise_segment(interp, st, frame, classes, run_atom=None):
                         d = deltas.get(v)
                         if d and d[0] == "str" and d[1]:
                             own[label] = (ch.members is not None and len(ch.members) == 1 and d[1] == next(iter(ch.members)))
-                    if all(own.values()) and len(own) == len(normal) and run_atom is not None \
-                            and all(counts[l] is c_ for (c__, c_, l, *_r) in normal for _x in [0]):
+                    full = run_atom is not None and all(counts[l] is c_ for (c__, c_, l, *_r) in normal for _x in [0])
+                    if all(own.values()) and len(own) == len(normal) and full:
                         out[v] = simplify_str(AbsStr([cur, run_atom]))
+                        continue
+                    if full:
+                        # each class appends its own text: the accumulator receives the run rendered through a mapping
+                        from .absval import MappedRun
+                        mapping = {}
+                        for ch, cnt, label, oc, deltas, gen, _, _n in normal:
+                            d = deltas.get(v)
+                            mapping[ch.name] = d[1] if d and d[0] == "str" else ""
+                        out[v] = AbsStr([cur, MappedRun(run_atom, mapping)])
                         continue
                     raise CannotDecide("fold appends different text for several classes to %r" % v)
                 if apps:
